@@ -325,7 +325,7 @@ contract(M, 'dfa_from_table', {'D': 'DFA', 'table': 'Map[(Int,Int),Bool]'}, retu
                              'all(implies(x in D.Q and a in D.Sigma and 0 <= k and k < n and not dist(D, q[k], x), cls(D, D.delta[(q[k], a)]) == cls(D, D.delta[(x, a)])) for x in atoms() for k in ints() for a in atoms())',
                              'all(implies(x in D.Q and a in D.Sigma, (name_of_set(cls(D, x)), a) in delta_r and delta_r[(name_of_set(cls(D, x)), a)] == name_of_set(cls(D, D.delta[(x, a)]))) for x in atoms() for a in atoms())',
                              'quot_struct(D, DFA(Q_r, Sigma, delta_r, q_r, F_r, check_validity=False))'],
-         theories=['word', 'dfa', 'naming', 'nerode', 'quot'], props=['C04'],
+         theories=['word', 'dfa', 'naming', 'nerode', 'quot'], props=['C04', 'C19'],
          note='class assembly from an exact table: every non-empty Q_[k] is the Myhill-Nerode class of q[k] for the first index k of the class; the result is the quotient automaton with printed classes as state names; '
               'language equality and pairwise distinguishability follow by lemmas quot-sim / quot-lang / quot-dist. Assumption N1: print_state_set is injective')
 contract(M, 'dfa_minimize', {'D': 'DFA'}, returns='DFA', requires=['dfa_wf(D)'],
@@ -344,5 +344,5 @@ contract(M, 'dfa_minimize', {'D': 'DFA'}, returns='DFA', requires=['dfa_wf(D)'],
                 4: {'ghost': 'done4', 'invariant': _QL + ['fin(trues(table))', 'card(trues(table)) <= c0', 'implies(changed, card(trues(table)) < c0)', _TK, _TS, _TF, _TD, '0 <= i and i < j and j < n', 'table[(i, j)]',
                                         'implies(not changed, all(implies(table[(i2, j2)], %s) for (i2, j2) in done3))' % _CL.replace("'i'", "'i2'").replace('q[i]', 'q[i2]').replace('q[j]', 'q[j2]').replace('table[(i, j)]', 'table[(i2, j2)]'),
                                         'all(table[(min(%s, %s), max(%s, %s))] for a in done4)' % (_succ('i'), _succ('j'), _succ('i'), _succ('j'))]}},
-         theories=['word', 'dfa', 'nerode'], props=['C04'],
+         theories=['word', 'dfa', 'nerode'], props=['C04', 'C19'],
          note='the table-filling fixpoint is proved exact: at loop exit table[i, j] holds iff q[i] and q[j] are Myhill-Nerode equivalent (soundness of every marking by dist-step, completeness by the leastness instance for the unmarked relation); the fixpoint loop terminates (measure: number of marked pairs); the class assembly dfa_from_table is assumed at its contract')
